@@ -35,6 +35,7 @@ class Layout:
         self.c = list(choices or [])
         self.i = 0
         self.force_doc_indent = force_doc_indent
+        self.features = set()
 
     def pick(self, n):
         if not self.c:
@@ -44,7 +45,7 @@ class Layout:
         return v % n
 
 
-INDENTS = ["", "  ", "\t", "    ", " \t", "\t\t", "        ", " "]
+INDENTS = ["", "  ", "\t", "    ", " \t", "\t\t", "        ", " ", "  \t", "\t  \t", "   \t ", "      \t\t"]
 CASINGS = 3
 
 
@@ -95,6 +96,8 @@ def _sep(lay, ind, after_unquoted):
         return "\t"
     if k == 3:
         return "\n" + ind + "    "
+    if k >= 4 and not (k == 7 and not after_unquoted) and k != 8:
+        lay.features.add("comment-in-args")
     if k == 4:
         return " " + _line_comment(lay) + "\n" + ind + "  "
     if k == 5:
@@ -102,6 +105,7 @@ def _sep(lay, ind, after_unquoted):
     if k == 6:
         return "\n" + _line_comment(lay) + "\n\t"
     if k == 7 and after_unquoted:
+        lay.features.add("comment-glued-to-arg")
         return _line_comment(lay) + "\n "        # comment glued to an unquoted argument
     return " \n "
 
@@ -136,7 +140,11 @@ def render_args(args, lay, ind):
 
 
 def render_cmd(name, args, lay, ind, last=False):
-    nm = case_name(name, lay.pick(CASINGS))
+    mode = lay.pick(CASINGS)
+    nm = case_name(name, mode)
+    if mode and nm != name:
+        lay.features.add("case:" + ("definition" if name in ("function", "macro") else
+                                    "closing" if name.startswith("end") or name == "cpp_end_class" else "other"))
     sp = ["", " ", "", "\t"][lay.pick(4)]
     s = ind + nm + sp + "(" + render_args(args, lay, ind) + ")"
     k = lay.pick(5)
@@ -151,8 +159,14 @@ def render_doc(doc, lay, module_name=False, head=None):
         lay.pick(len(INDENTS))
     else:
         ind = INDENTS[lay.pick(len(INDENTS))]
+    if doc.get("indent") is not None:
+        ind = doc["indent"]           # indentation fixed by the AST (C01 draws arbitrary space/tab runs)
     if doc.get("form") == "bare":
         ind = ""
+    if "\t" in ind:
+        lay.features.add("doc-tab-indent")
+    elif ind:
+        lay.features.add("doc-space-indent")
     out = [ind + "#[[[" + (head or "")]
     for l in doc["lines"]:
         if doc.get("form") == "bare":
@@ -165,6 +179,8 @@ def render_doc(doc, lay, module_name=False, head=None):
 
 def _between_doc_and_cmd(lay, ind):
     k = lay.pick(6)
+    if k in (2, 3, 4):
+        lay.features.add("comment-between-doc-and-command")
     if k == 0:
         return ""
     if k == 1:
@@ -245,8 +261,10 @@ def _render_impl(it, lead, lay, depth, out, ind):
     out.append(render_cmd("end" + impl["cmd"], [], lay, ind))
 
 
-def render(module, layout=None, force_doc_indent=None, eof_newline=True):
+def render(module, layout=None, force_doc_indent=None, eof_newline=True, features=None):
     lay = layout if isinstance(layout, Layout) else Layout(layout, force_doc_indent)
+    if features is not None:
+        lay.features = features
     out = []
     md = module.get("moddoc")
     if md is not None:
@@ -255,7 +273,7 @@ def render(module, layout=None, force_doc_indent=None, eof_newline=True):
         head = [" @module", "@module", " @module"][lay.pick(3)]
         if md["name"] is not None:
             head += " " + md["name"]
-        out.append(render_doc({"lines": md["lines"], "form": "leader"}, lay, head=head))
+        out.append(render_doc({"lines": md["lines"], "form": "leader", "indent": md.get("indent")}, lay, head=head))
     render_items(module["items"], lay, 0, out)
     out.append(_gap(lay, ""))
     text = "".join(out)
